@@ -51,4 +51,6 @@ def cfg(g):
                 body.append(("?", repr(x)))
         prods.append((p.head.value, tuple(body)))
     start = g.start_symbol.value if g.start_symbol is not None else None
+    from vf import core
+    core.LOG.orders.add(zlib.crc32(repr((list(g.variables), list(g.terminals), len(prods) and prods[0])).encode()))
     return Grammar(prods, start, [v.value for v in g.variables], [t.value for t in g.terminals])
